@@ -39,6 +39,13 @@ TIERS = {
 
 OBS = 'obs "$-" "$#" "$0" "$*" "$@"'
 
+# every clause of the argument syntax / start-up rules must be exercised by the enumeration (TLC's own coverage
+# report is not feasible on this recursive specification)
+EXPECTED_CLASSES = ["set:options", "set:operands", "set:options+operands", "set:variables", "set:listing", "set:unknown",
+                    "set:ambiguous", "set:missing", "set:unmodifiable", "set:nonportable", "shift", "call", "lo", "lp",
+                    "sh:run:c", "sh:run:s", "sh:run:f", "sh:info", "sh:error", "sh:error:unknown", "sh:error:ambiguous",
+                    "sh:error:missing", "sh:error:nonportable", "sh:error:unnegatable", "sh:error:argument"]
+
 
 def _cmds(lines):
     return "; ".join(l for l in lines if l != OBS)
@@ -105,7 +112,7 @@ def run(tier):
 def _run(tier, cfgs, wd, rep, side, th, t0):
     # ---- spec -> impl -------------------------------------------------------
     gen = os.path.join(wd, "gen.ndjson")
-    r = vlib.tlc("Gen_SetOpts", cfgs["gen"], workers=8, timeout=cfgs["timeout"], json_out=gen)
+    r = vlib.tlc("Gen_SetOpts", cfgs["gen"], workers=8, timeout=cfgs["timeout"], json_out=gen, xmx="2g")
     vlib.tlc_must_pass(r, f"enumeration and theorems {cfgs['gen']}")
     states, transitions = r.distinct, r.generated
     vlib.log(f"[tlc] {cfgs['gen']}: {r.distinct} states (theorems hold on every one), {r.generated} transitions, "
@@ -119,6 +126,9 @@ def _run(tier, cfgs, wd, rep, side, th, t0):
     if summ["states"] != r.distinct or summ["cases"] == 0 or summ["starts"] == 0:
         raise vlib.ToolError(f"replay covered {summ['states']} of {r.distinct} states, {summ['cases']} cases, "
                              f"{summ['starts']} command lines")
+    missing = [c for c in EXPECTED_CLASSES if summ["by_class"].get(c, 0) == 0]
+    if missing:
+        raise vlib.ToolError(f"clauses of the specification not exercised by the enumeration: {missing}")
     vlib.log(f"[p4] replay: {summ['cases']} (state, operation) cases over {summ['states']} states (fan {summ['fan']}, "
              f"big fan {summ['bigfan']}) and {summ['starts']} command lines on the real shell; {summ['unspec']} left open by "
              f"the specification; {summ['mismatches']} deviation(s); prescribed effects {summ['by_effect']}")
@@ -142,6 +152,8 @@ def _run(tier, cfgs, wd, rep, side, th, t0):
     vlib.log(f"[p4] real OS, yash_cli::main(): {real['real_cases']} command lines ({real['kinds']}; {real['skipped']} need another "
              f"argv[0] or are left open), {real['mismatches']} deviation(s)")
     for m in vlib.read_ndjson(rmis):
+        if m["field"] == "timeout":
+            raise vlib.ToolError(f"real-OS stage: {m['argv']} did not finish in time")
         rep.violation(_key("spec->impl", "real", m["argv"], "", "", m["field"]),
                       f"real OS, true entry point: command line {m['argv']}: the specification prescribes '{m['k']}'"
                       f"{' with first observation ' + json.dumps(m['exp'][0]) if m['exp'] else ''}; observed "
@@ -200,7 +212,7 @@ def _run(tier, cfgs, wd, rep, side, th, t0):
         "exhaustive": True,
         "bounds": {"cfg": cfgs["gen"], "depth": r.depth, "tlc_wall_s": round(r.wall, 1), "fan": summ["fan"],
                    "bigfan": summ["bigfan"]},
-        "enumeration": {k: summ[k] for k in ("states", "cases", "starts", "unspec", "mismatches", "by_kind", "by_effect")},
+        "enumeration": {k: summ[k] for k in ("states", "cases", "starts", "unspec", "mismatches", "by_kind", "by_effect", "by_class")},
         "real_os_entry_point": real,
         "random": dict(rsumm, verdicts=counts),
         "known_finding_hits": {fid: n for fid, (_, n) in rep.known_hits.items()},
